@@ -9,7 +9,8 @@ EXPECTED = ["C08_pool_no_transfer", "C08_unchanged_no_body", "C08_download_sets_
             "C08_changed_is_fetched"]
 LEVEL = "proof"
 RULE = ("history = upstream versions V1..Vn (n in 2..4; packages added/removed/upgraded, by-hash toggled, compression variants "
-        "and release flavours appearing/disappearing, every change of content changes Last-Modified) with, after each Vi<n, a "
+        "and release flavours appearing/disappearing, every change of content changes Last-Modified; also re-publication of the "
+        "same content with a newer date and roll-back to an older snapshot with its older dates) with, after each Vi<n, a "
         "run of the real tool of class none / transient faults / persistently failing required file / killed at a random "
         "mutation prefix / no run at all, and a final run against Vn (fault-free or with transient faults) that must exit 0; "
         "then (1) listing (path, size, sha1, mtime) of mirror/<repo> must equal that of a first-ever mirror of Vn into an empty "
@@ -31,8 +32,24 @@ def run_one(chk, sseed, nrepos=1):
     try:
         n = rng.randint(2, 4)
         versions = [list(w.repos)]
+        import copy
+        kinds = ["first"]
         for _ in range(n - 1):
-            versions.append([common.evolve(rng, r) for r in versions[-1]])
+            kind = rng.choice(["evolve", "evolve", "evolve", "touch", "rollback"])
+            if kind == "rollback" and len(versions) >= 2:
+                # the upstream is restored from an older snapshot: same content AND the older Last-Modified
+                versions.append(copy.deepcopy(versions[rng.randrange(len(versions) - 1)]))
+            elif kind == "touch":
+                # same content re-published with a newer Last-Modified
+                nv = copy.deepcopy(versions[-1])
+                for r in nv:
+                    for cs in r["codenames"].values():
+                        cs["date"] = cs.get("date", 1_000_000_000) + 86400 * 30
+                versions.append(nv)
+            else:
+                kind = "evolve"
+                versions.append([common.evolve(rng, r) for r in versions[-1]])
+            kinds.append(kind)
         final = versions[-1]
         stores_f = w.stores(final)
         if any(common.has_s3(r, w.cfgs[r["url"]], stores_f[r["url"]]) for r in final):
@@ -74,7 +91,7 @@ def run_one(chk, sseed, nrepos=1):
                 url = r["url"]
                 on_disk = {e[0] for e in run_e2e.tree(w.sb, url)}
                 plans[url], _ = scenario.gen_plan(rng, fcls, r, w.cfgs[url], stores_f[url], skip_pool=on_disk)
-        replay = {"scenario_seed": sseed, "nrepos": nrepos, "history": classes, "final": fcls, "lines": w.lines}
+        replay = {"scenario_seed": sseed, "nrepos": nrepos, "history": classes, "versions": kinds, "final": fcls, "lines": w.lines}
         res = run_e2e.execute(w.sb, final, stores_f, plans, vloop.RandomChooser(rng.randrange(1 << 30)))
         chk.traces += 1
         if res.exit != 0:
@@ -141,6 +158,8 @@ def run_one(chk, sseed, nrepos=1):
                               "repeat_requests": len(res2.net.log), "repeat_body_chunks": 0 if res2.exit != 0 else len(bodies)})
         for c in classes:
             chk.count("history_step_" + c)
+        for k in kinds[1:]:
+            chk.count("version_step_" + k)
     finally:
         for sb in extra:
             sb.destroy()
